@@ -98,6 +98,20 @@ def compare(ctx, fmt, ds, back, key, resolution, layout_note=""):
     probs = []
     o = ds.efth
     b = back.efth
+    # what comes back is a spectra dataset: floating-point energy densities the accessor can integrate (not an object array holding
+    # None or strings where the file had a missing value)
+    if b.dtype.kind != "f":
+        probs.append(("dtype", "efth read back with dtype %s" % b.dtype))
+        return probs
+    for cname in ("freq", "dir"):
+        if cname in back.coords and back[cname].dtype.kind not in "fiu":
+            probs.append(("dtype", "%s read back with dtype %s" % (cname, back[cname].dtype)))
+            return probs
+    try:
+        back.spec.hs()
+    except Exception as ex:  # noqa
+        probs.append(("unusable", "hs() of the dataset read back raises %s" % type(ex).__name__))
+        return probs
     if "lat" in b.dims and "lat" not in o.dims and b.sizes["lat"] == 1 and b.sizes["lon"] == 1 and o.sizes.get("site", 1) == 1:
         # a file with a single location reads back as a 1 x 1 grid: same position, compared as one site
         b = b.isel(lat=0, lon=0, drop=True).expand_dims(site=[0], axis=1 if "time" in b.dims else 0)
